@@ -4,7 +4,7 @@ CONSTANTS
   KeyPrefixes = {"#"}
   FieldSeps = {":"}
   ArraySizes = {0}
-  ActiveFns = {"XMLEscapeChars", "XMLEscapeCharsDecoder"}
+  ActiveFns = {"XMLEscapeChars", "XMLEscapeCharsDecoder", "SetCheckTagToSkipFunc"}
   ActiveOps = {"dec", "enc", "seqrt", "beautify"}
   MaxHist = 4
 INVARIANTS Functional OnlyRelevant Emit
